@@ -105,6 +105,8 @@ def clear_stubs():
 def _m_len(x):
     if type(x) is MSeq:
         return x.length()
+    if type(x) is SByteArray and x._m is not None:
+        return x._m.length()
     return len(x)
 
 
@@ -150,7 +152,7 @@ def _m_bytes(*a, **k):
     if tx is bytearray:
         return bytes(x)
     if tx is MSeq:
-        raise Unsupported('bytes() of symbolic-length sequence')
+        return MSeq(x.n, x.f, mutable=False)
     if isinstance(x, (str, SStr)):
         raise TypeError('string argument without an encoding')
     if isinstance(x, (int, SInt)) and not isinstance(x, bool):
